@@ -298,6 +298,28 @@ def check(rep, F, tier, replay=None):
             rep.violation("COLRET-gate", key_, "%s stores a collateral return output without any min-ADA computation: set_collateral_return(1 lovelace to a base address) is accepted and build_tx() returns a body whose collateral return is below the minimum (add_output rejects the same output)" % key_, {})
     rep.floor("functions storing TransactionBuilder.collateral_return", 3, n_cr)
     minada_addr_rule(rep, F)
+    # TOPUP-size: the change packer sizes a value with the widest coin it can end up with
+    rep.rule("TOPUP-size", "where the change packer judges a value against max_value_size (will_adding_asset_make_output_overflow, pack_nfts_for_change) the coin is lowered to the minimum ADA only on the edge where the minimum is larger than the coin already there (all the ADA that is left, which the last change output receives after the packing, bypassing add_output): an unconditional `set_coin(min_ada)` under-sizes the value by up to 4 bytes and the topped-up change output exceeds max_value_size")
+    n_tu = 0
+    for fid_, fn_ in F.fns.items():
+        if "/tests/" in fn_["file"] or not (fid_.endswith("::will_adding_asset_make_output_overflow") or fid_.endswith("::pack_nfts_for_change")):
+            continue
+        org_ = ff.Origins(F, fid_)
+        for c in F.calls(fid_):
+            if not (c.to or "").endswith("Value::set_coin"):
+                continue
+            o_ = org_.of_operand(fn_["bbs"][c.bb]["t"][3][1])
+            if not any(x.startswith("call:") and x.split("@")[0].endswith("calculate_ada") for x in o_):
+                continue
+            n_tu += 1
+            rep.inst("TOPUP-size")
+            ok_ = False
+            for s_, edge, d in mp.dominating_guards(F, fid_, c.bb, org_):
+                if d["kind"] == "call" and "PartialOrd" in d["callee"] and any(any(x.startswith("call:") and x.split("@")[0].endswith("calculate_ada") for x in a_) for a_ in d["args"]):
+                    ok_ = True
+            if not ok_:
+                rep.violation("TOPUP-size", F.key(fid_), "%s replaces the coin by the minimum ADA unconditionally before testing the value size: 20 two-byte-named assets, 4 345 ADA of change, max_value_size 120 -> change output with a 122-byte value (the coin 4 342 796 471 needs 9 bytes, the minimum ADA 5)" % F.key(fid_), {})
+    rep.floor("coin adjustments before a value-size test in the change packer", 2, n_tu)
     import common as _common
     import p_c13 as _c13
     _c13.size_head_rule(rep, F, _common.load_table("conway_cddl.json"))
